@@ -111,8 +111,12 @@ func nhConcSetup(arg json.RawMessage) (func(), func(vrt.Result) (string, string,
 			n.setOutcome(p, true)
 			n.peerUp(p)
 		}
+		// a data bundle waits in the store: "peer appeared" retries it, which consults both predictability maps
+		n.submit(gen.Spec{Dst: "dtn://dest/x", Src: "dtn://node/app", Rpt: "dtn://node/app", PCRC: 2, Time: DtnNow(), Lifetime: 3600000, PayLen: 6, PaySeed: 1}.Build())
 		vrt.UntrackMaps()
-		vrt.TrackMap(routing.VerifProphetLive(n.core.VerifAlgorithm()), "Prophet.predictabilities")
+		own, others := routing.VerifProphetLive(n.core.VerifAlgorithm())
+		vrt.TrackMap(own, "Prophet.predictabilities")
+		vrt.TrackMap(others, "Prophet.peerPredictabilities")
 		newcomer := peers[len(peers)-1]
 		n.setOutcome(newcomer, true)
 		np := n.peer(newcomer)
@@ -142,7 +146,7 @@ func nhConcSetup(arg json.RawMessage) (func(), func(vrt.Result) (string, string,
 			}
 			obs = fmt.Sprintf("vectors-to-newcomer=%d", got)
 			if len(res.Faults) > 0 {
-				return obs + " fault", "concurrent-map-iteration-and-write", "the Go runtime aborts the process when these overlap: " + res.Faults[0]
+				return obs + " fault", "concurrent-map-access", "the Go runtime aborts the process when these overlap: " + res.Faults[0]
 			}
 			if got == 0 {
 				return obs, "no-summary-vector-for-new-peer", "a peer appeared but no metadata bundle was handed to it"
